@@ -181,7 +181,7 @@ def register(w):
         modifies=["g:rootpath"], raises={}, returns="str",
         ensures=["result == S.fspath_of(%s, selector)" % ROOT, ROOTINV],
         canary="result == %s + selector" % ROOT,
-        props=["C01", "C05"],
+        props=["C01", "C05", "C04"],
     )
     for name, (params, returns, raises) in VFS_METHODS.items():
         req = [ROOTINV, "S.abs_root(%s)" % ROOT]
@@ -203,7 +203,7 @@ def register(w):
             ghost={"open_files": "trace"},
             use_lemmas=[("safe-sel-resolves-under-root", {"s": "selector", "root": ROOT})] if name != "stat" else [],
             result_elem="S.child_name_ok(elem)" if name == "listdir" else None,
-            props=["C01"],
+            props=["C01", "C04"] if name in ("open", "stat") else ["C01"],
         )
     register2(w)
     register3(w)
@@ -339,6 +339,24 @@ def register2(w):
         opts={"cfgeval:handlers.HandlerMultiplexer/handlers": "list[class:AnyHandler]"},
         canary="S.secure(selector)",
         props=["C01", "C03", "C12"])
+    w.contract(
+        H + "HandlerMultiplexer.py::getHandler", selfclass=["<frame>"], label="getHandler[configured list is never changed]",
+        params={"selector": "str", "searchrequest": "opt[str]", "protocol": "obj:BaseGopherProtocol", "config": "obj:Config",
+                "handlerlist": "opt[list[class:AnyHandler]]", "vfs": "opt[either[obj:VFS_Real,obj:VFSZip]]"},
+        globals={"handlers": "opt[list[class:AnyHandler]]", "rootpath": "opt[str]", "pygopherd/handlers/base.py:rootpath": "opt[str]"},
+        requires=["selector.startswith('/')", "S.abs_root(config.get('pygopherd', 'root'))",
+                  "implies(vfs is not None, vfs.config is config)",
+                  "G.rootpath is None or G.rootpath == '' or G.rootpath == config.get('pygopherd', 'root')"],
+        raises={"FileNotFound": True},
+        returns="obj:AnyHandler",
+        ensures=["implies(old(G.handlers) is not None, G.handlers is not None and len(G.handlers) == len(old(G.handlers)))",
+                 "implies(old(G.handlers) is not None and len(old(G.handlers)) > 0, G.handlers[0] is old(G.handlers)[0] and G.handlers[len(G.handlers) - 1] is old(G.handlers)[len(G.handlers) - 1])",
+                 "implies(handlerlist is not None, len(handlerlist) == len(old(handlerlist)))"],
+        on_raise={"FileNotFound": ["implies(old(G.handlers) is not None, G.handlers is not None and len(G.handlers) == len(old(G.handlers)))"]},
+        loops={0: dict(invariant=["True"], index="_k")},
+        opts={"cfgeval:handlers.HandlerMultiplexer/handlers": "list[class:AnyHandler]"},
+        note="C03 (answers do not depend on earlier requests): looking a handler up, on the real file system or inside an archive, never changes the configured handler list once it is loaded",
+        props=["C03", "C16"])
 
 
 # =====================================================================================================
@@ -398,9 +416,10 @@ def register3(w):
             goal=["S.secure(real)"], props=["C01"],
             note="the real part of a virtual selector is a prefix of a filtered selector")
     w.contract(H + "mbox.py::MessageHandler.canhandlerequest", selfclass=["MBoxMessageHandler", "MaildirMessageHandler"],
-               requires=INV, modifies=["self.message_num"], returns="bool", assumed=True,
-               note="no file-system access (syntactic: C01.ast.sinks-under-contract); body verified under C03",
-               raises={}, props=["C01"])
+               requires=INV, modifies=["self.message_num"], returns="bool",
+               ensures=["implies(result, self.message_num >= 1)", "implies(result, type(self.vfs) is VFS_Real)"],
+               note="no file-system access; never raises, whatever follows the message flag (digits int() refuses, non-ASCII digits): the handler chain goes on to the next handler",
+               raises={}, props=["C01", "C03", "C05"])
     w.fields("PYGHandler", module="opaque:module", pygclass="opaque:class", pygobject="opaque:pygobject")
     w.contract(H + "pyg.py::PYGHandler.canhandlerequest", selfclass=["PYGHandler"],
                requires=INV + VSTRUCT, modifies=["self.module", "self.pygclass", "self.pygobject"], returns="bool", assumed=True,
